@@ -197,7 +197,8 @@ End ==
            w2 == IF args.mkroot /\ ws.kind = "absent" THEN [kind |-> "dir", files |-> [x \in AllKeys |-> NoFile]] ELSE ws
        IN \* with a state database the link record of the path is saved after the changes: when nothing is
           \* left at the path, stat-ing it raises FileNotFoundError before the result is reported (named behaviour)
-          /\ res' = IF args.state /\ args.diff /\ w2.kind = "absent" THEN [kind |-> "exc", type |-> "FileNotFoundError"]
+          \* (also when there was nothing to do but `relink` was asked for: the record is refreshed then as well)
+          /\ res' = IF args.state /\ (args.diff \/ args.relink) /\ w2.kind = "absent" THEN [kind |-> "exc", type |-> "FileNotFoundError"]
                     ELSE IF fl # {} THEN [kind |-> "CheckoutError", keys |-> fl]
                     ELSE [kind |-> "ok", ret |-> IF ~args.diff THEN "none" ELSE IF args.relink THEN "false" ELSE "true"]
           /\ failed' = fl
